@@ -13,12 +13,12 @@ from common import Infra, run_tlc, Scratch, log
 # which P predicates decide which property (PipeProps.Verdicts)
 PREDS = {
     "C05": ["PipePrefix", "PipeComplete", "PipeSettle", "PipeGen", "Prefix", "SeqExact", "FoldRes", "Complete", "TakeBound", "CallsPrefix", "CallsComplete", "Settle1"],
-    "C06": ["PipePrefix", "NoPanic", "Prefix", "FoldRes", "Settle1", "Settle2", "LiftCloses", "GenExact", "GenStops", "GenSettle", "JoinPerInput", "JoinNothingInvented"],
+    "C06": ["PipePrefix", "NoPanic", "Prefix", "FoldRes", "Settle1", "Settle2", "LiftCloses", "GenExact", "GenStops", "GenNoEarlyClose", "GenSettle", "JoinPerInput", "JoinNothingInvented"],
     "C07": ["Prefix", "Complete", "CallsPrefix", "CallsComplete", "Settle1", "LiftCloses", "NoPanic", "GenExact", "GenSettle"],
     "C08": ["NeverBlocksSender", "Prefix", "LosslessAfterCancel", "Complete", "Settle1", "NewSettle", "NoPanic"],
     "C09": ["Prefix", "Complete", "CallsPrefix", "CallsComplete", "NoPanic", "Settle1", "Settle2"],
     "C10": ["FoldRes", "Complete", "CallsComplete", "Settle1", "NoPanic"],
-    "C11": ["GenExact", "GenStops", "EmitPaced", "EmitKeepUp", "Settle2", "GenSettle", "NoPanic"],
+    "C11": ["GenExact", "GenStops", "GenNoEarlyClose", "EmitPaced", "EmitKeepUp", "Settle2", "GenSettle", "NoPanic"],
     "C12": ["JoinPerInput", "JoinNothingInvented", "JoinComplete", "Settle1", "Settle2", "NoPanic"],
     "C13": ["Prefix", "Complete", "ThrottleWindow", "ThrottlePaced", "Settle1", "Settle2", "NoPanic"],
 }
@@ -83,6 +83,7 @@ def stage_cfgs(pid, tier, rng):
                 mc.append(C(kind=kind, cap=1, mode="pure", pred=[2], monoid="digits9", inputs=[[1, 2]], gate=True))
                 gen.append(C(kind=kind, cap=1, mode="pure", pred=[2], monoid="digits9", inputs=[[1, 2]], gate=True))
         # Seq / ToSeq are identity on lists (no goroutine of their own): driven by random schedules only
+        rnd.append(C(kind="Seq", inputs=[[(7 * i) % 1000 + 1 for i in range(1100)]]))     # longer than any internal chunk size
         for inp in ([], [1], [1, 2, 3], [3, 1, 2, 2]):
             rnd.append(C(kind="Seq", inputs=[inp]))
             rnd.append(C(kind="ToSeq", cap=len(inp) % 3, inputs=[inp]))
@@ -135,6 +136,13 @@ def stage_cfgs(pid, tier, rng):
                             gen.append(C(inputs=[[1, 2]] if kind == "FMap" or par == 2 else [[1, 2, 3]], **base))
                     rnd.append(C(inputs=[[1, 2, 3, 4, 5]], **base))
                     rnd.append(C(inputs=[[1, 2, 3, 4, 5, 6]], **dict(base, gate=False)))
+            if kind in ("Filter", "Partition"):
+                # a predicate that fails on some elements: as in pipe, such an element is dropped / goes right, and the work goes on
+                for mode in ("lift", "try"):
+                    for par in (1, 2, 3):
+                        rnd.append(C(kind=kind, forked=True, par=par, cap=1, mode=mode, pred=[1, 2, 3, 5, 6], fail=[1, 2, 3, 5][: par + 1], inputs=[[1, 2, 3, 4, 5, 6, 7]], gate=par == 2))
+                mc.append(C(kind=kind, forked=True, par=2, cap=0, mode="try", pred=[1, 2, 3], fail=[1, 2], inputs=[[1, 2, 3]], gate=False))
+                rnd.append(C(kind="TakeWhile", forked=True, cap=1, mode="try", pred=[1, 2, 3, 4], fail=[3], inputs=[[1, 2, 3, 4, 5]]))
             if kind == "ForEach":
                 # ForEach ignores what its function returns: with a failing function every element is still visited once
                 for mode in ("lift", "try"):
@@ -195,7 +203,7 @@ GenEmit == (~ENABLED Lib) => PrintT(ToJson([t |-> "sched", cfg |-> cfg.id, cmds 
 MODEL_CONST = {"Gen": " MaxT <- MCMaxT\n MaxCalls <- MCMaxCalls\nCONSTRAINT Bounded\n", "Throttle": " MaxT <- MCMaxT\n"}
 MODEL_INV = {
     "Stage": STAGE_INV,
-    "Gen": {"GenExact": "GenExactInv", "EmitPaced": "EmitPacedInv", "EmitKeepUp": "EmitKeepUpInv", "GenSettle": "GenSettleInv", "Settle2": "Settle2Inv", "LiftCloses": "LiftClosesInv"},
+    "Gen": {"GenExact": "GenExactInv", "EmitPaced": "EmitPacedInv", "EmitKeepUp": "EmitKeepUpInv", "GenSettle": "GenSettleInv", "Settle2": "Settle2Inv", "LiftCloses": "LiftClosesInv", "GenNoEarlyClose": "GenNoEarlyCloseInv"},
     "Throttle": {"Prefix": "PrefixInv", "Complete": "CompleteInv", "ThrottleWindow": "ThrottleWindowInv", "ThrottlePaced": "ThrottlePacedInv",
                  "Settle1": "Settle1Inv", "Settle2": "Settle2Inv"},
     "JoinStage": {"JoinPerInput": "JoinPerInputInv", "JoinNothingInvented": "JoinNothingInventedInv", "JoinComplete": "JoinCompleteInv",
@@ -451,7 +459,7 @@ def clocked_models(run, pid, th, d, rng):
         sub = [c for c in g if c["cap"] < 2 and (c["kind"] == "Emit" or c["step"] != "const")]
         sub = rng.sample(sub, min(len(sub), 16 if th else 8))
         r1 = random.Random(rng.random())
-        tasks.append(lambda: model_mc(run, "Gen", pid, g, d, maxt=5 if th else 4, maxcalls=3, qstep=True, view="ViewLite", only=["GenExact", "EmitPaced", "GenSettle", "LiftCloses"]))
+        tasks.append(lambda: model_mc(run, "Gen", pid, g, d, maxt=5 if th else 4, maxcalls=3, qstep=True, view="ViewLite", only=["GenExact", "EmitPaced", "GenSettle", "LiftCloses", "GenNoEarlyClose"]))
         tasks.append(lambda: model_mc(run, "Gen", pid, g3[:24] if th else g3[:10], d, maxt=4 if th else 3, maxcalls=3, qstep=True))
         tasks.append(lambda: [dict(x, epilogue="cancel") for x in model_gen(run, "Gen", sub, d, r1, lim, maxt=4 if th else 3, maxcalls=3 if th else 2, maxsched=10 if th else 8)])
     if pid in ("C06", "C12"):
